@@ -2,7 +2,7 @@
 CFG = {
     "modules": ["VaxisModel.Props.C17", "VaxisModel.Props.C17Ext", "VaxisModel.Props.C17Facts", "VaxisModel.Props.C17FactsTF", "VaxisModel.Props.C17FactsTI",
                 "VaxisModel.Props.C17BodyBase", "VaxisModel.Props.C17BodyReset", "VaxisModel.Props.C17BodyCursorTo", "VaxisModel.Props.C17BodyInsert",
-                "VaxisModel.Props.C17BodyDelRight", "VaxisModel.Props.C17BodyDelLeft", "VaxisModel.Props.C17BodyKill", "VaxisModel.Props.C17BodyCheck",
+                "VaxisModel.Props.C17BodyDelRight", "VaxisModel.Props.C17BodyDelLeft", "VaxisModel.Props.C17BodyKill", "VaxisModel.Props.C17BodyCheck", "VaxisModel.Props.C17BodyDraw",
                 "VaxisModel.Props.C17Body", "VaxisModel.Props.C17BodyTI", "VaxisModel.Props.C17Seg", "VaxisModel.Witness.F517"],
     "extractors": ["C17"],
     "drivers": ["C17"],
